@@ -9,6 +9,7 @@ import (
 	"reflect"
 	"regexp"
 	"strings"
+	"unicode/utf8"
 )
 
 // bltn type defines functions which run at CFG execution.
@@ -2960,22 +2961,21 @@ func _range(n *node) {
 		an = n.child[2]
 		index1 := n.child[1].findex // array value location in frame
 		if isString(an.typ.TypeOf()) {
-			// Special variant of "range" for string, where the index indicates the byte position
-			// of the rune in the string, rather than the index of the rune in array.
-			stringType := reflect.TypeOf("")
-			value = genValueAs(an, rat) // range on string iterates over runes
+			// Special variant of "range" for string, which iterates over the runes of
+			// the string: the index is the byte position of the rune in the string, and
+			// an invalid UTF-8 sequence yields the replacement character, one byte wide.
+			value = genValue(an)
 			n.exec = func(f *frame) bltn {
-				a := f.data[index2]
-				v0 := f.data[index3]
-				v0.SetInt(v0.Int() + 1)
-				i := int(v0.Int())
-				if i >= a.Len() {
+				s := f.data[index2].String()
+				v0 := f.data[index3] // byte position of the next rune
+				pos := int(v0.Int())
+				if pos >= len(s) {
 					return fnext
 				}
-				// Compute byte position of the rune in string
-				pos := a.Slice(0, i).Convert(stringType).Len()
+				r, w := utf8.DecodeRuneInString(s[pos:])
+				v0.SetInt(int64(pos + w))
 				f.data[index0].SetInt(int64(pos))
-				f.data[index1].Set(a.Index(i))
+				f.data[index1].SetInt(int64(r))
 				return tnext
 			}
 		} else {
@@ -2995,29 +2995,45 @@ func _range(n *node) {
 	} else {
 		an = n.child[1]
 		if isString(an.typ.TypeOf()) {
-			value = genValueAs(an, rat) // range on string iterates over runes
+			value = genValue(an)
+			n.exec = func(f *frame) bltn {
+				s := f.data[index2].String()
+				v0 := f.data[index3] // byte position of the next rune
+				pos := int(v0.Int())
+				if pos >= len(s) {
+					return fnext
+				}
+				_, w := utf8.DecodeRuneInString(s[pos:])
+				v0.SetInt(int64(pos + w))
+				f.data[index0].SetInt(int64(pos))
+				return tnext
+			}
 		} else {
 			value = genValueRangeArray(an)
-		}
-		n.exec = func(f *frame) bltn {
-			v0 := f.data[index0]
-			v0.SetInt(v0.Int() + 1)
-			if int(v0.Int()) >= f.data[index2].Len() {
-				return fnext
+			n.exec = func(f *frame) bltn {
+				v0 := f.data[index0]
+				v0.SetInt(v0.Int() + 1)
+				if int(v0.Int()) >= f.data[index2].Len() {
+					return fnext
+				}
+				return tnext
 			}
-			return tnext
 		}
 	}
 
 	// Init sequence
 	next := n.exec
-	index := index0
-	if isString(an.typ.TypeOf()) && len(n.child) == 4 {
-		index = index3
+	if isString(an.typ.TypeOf()) {
+		n.child[0].exec = func(f *frame) bltn {
+			f.data[index2] = reflect.ValueOf(value(f).String()) // set a copy of the string for range
+			f.data[index3].SetInt(0)  // byte position of the first rune
+			return next
+		}
+		return
 	}
 	n.child[0].exec = func(f *frame) bltn {
 		f.data[index2] = value(f) // set array shallow copy for range
-		f.data[index].SetInt(-1)  // assing index value
+		f.data[index0].SetInt(-1) // assing index value
 		return next
 	}
 }
